@@ -113,6 +113,10 @@ fn one_case(cx: &mut Ctx, case: &Case, tag: &str) {
         }),
         ";",
     );
+    let ans = format!("{ans} strict={}", if l.strict_type_failure { "typefail" } else { "pass" });
+    if l.strict_type_failure {
+        cx.out.bucket("strict_type_failure");
+    }
     if !case.skip_outs.is_empty() {
         cx.out.bucket("unconnected_output_pattern");
     }
@@ -582,7 +586,44 @@ fn multi_cast_case(cx: &mut Ctx, op: &'static str, n_out: usize, slot: usize, ac
     castelim_run(cx, &req, &g, feed);
 }
 
+/// A *lying* intermediate `value_info` in front of a Cast: `x -> Identity -> m -> Cast(to) -> Identity`,
+/// where `value_info(m)` declares `lie`. `x_declared = true`: the inferred label (CopyFromInput)
+/// overwrites the lie and everything must stay correct (full oracle). `x_declared = false`: no label
+/// can be inferred, the optimizer trusts the declaration: `StaticSound` is violated by construction,
+/// the case documents what then happens (no PROPFAIL; the model must predict the same decision).
+fn lying_value_info_case(cx: &mut Ctx, x_declared: bool, actual: Dt, lie: Dt, to: Dt) {
+    let nodes = vec![
+        Node::new("Identity", "pre", &["x"], &["m"]),
+        Node::new("Cast", "cast", &["m"], &["y"]).attr("to", onnx_enc::Attr::Int(to.onnx() as i64)),
+        Node::new("Identity", "post", &["y"], &["z"]),
+    ];
+    let g = Graph {
+        nodes,
+        inputs: vec![if x_declared { ValueInfo::fixed("x", actual.onnx(), &[2, 3]) } else { ValueInfo::new("x", 0, None) }],
+        outputs: vec![ValueInfo::new("z", 0, None)],
+        value_infos: vec![ValueInfo::new("m", lie.onnx(), None)],
+        ..Default::default()
+    };
+    let req = format!(
+        "castelim pre=Identity decl={} to={} actual={} lie={}",
+        if x_declared { actual.name() } else { "?" },
+        to.name(),
+        actual.name(),
+        lie.name()
+    );
+    let mut r = Rng::new(99);
+    let feed = vec![("x".to_string(), data(&mut r, actual, &[2, 3]).unwrap().value())];
+    let sound = x_declared || lie == actual;
+    castelim_run_opt(cx, &req, &g, feed, sound);
+}
+
 fn castelim_run(cx: &mut Ctx, req: &str, g: &Graph, feed: Vec<(String, Value)>) {
+    castelim_run_opt(cx, req, g, feed, true)
+}
+
+/// `static_sound = false`: the declared metadata lies about the execution; the optimized /
+/// unoptimized comparison is recorded in a bucket instead of being a property failure.
+fn castelim_run_opt(cx: &mut Ctx, req: &str, g: &Graph, feed: Vec<(String, Value)>, static_sound: bool) {
     let bytes = encode_model(g);
     let res = hcommon::catch(|| {
         let load = |optimize: bool| {
@@ -612,7 +653,9 @@ fn castelim_run(cx: &mut Ctx, req: &str, g: &Graph, feed: Vec<(String, Value)>) 
                 (Ok(a), Ok(b)) => {
                     let same = a.len() == b.len()
                         && a.iter().zip(b).all(|(p, q)| p.dtype() == q.dtype() && format!("{p:?}") == format!("{q:?}"));
-                    if !same {
+                    if !same && !static_sound {
+                        cx.out.bucket("lying_value_info_changed_output");
+                    } else if !same {
                         fail = Some(format!(
                             "optimized graph output differs from unoptimized: {} vs {}",
                             a.first().map(|v| vt_name(v.dtype())).unwrap_or_default(),
@@ -682,6 +725,15 @@ fn run(args: &Args) {
     for zp in [Dt::U8, Dt::I8] {
         for to in ALL_DT {
             quant_cast_case(&mut cx, zp, to);
+        }
+    }
+    for x_declared in [true, false] {
+        for actual in ALL_DT {
+            for lie in ALL_DT {
+                for to in ALL_DT {
+                    lying_value_info_case(&mut cx, x_declared, actual, lie, to);
+                }
+            }
         }
     }
     for (op, n_out) in [("TopK", 2usize), ("DynamicQuantizeLinear", 3), ("Dropout", 2), ("Split", 2)] {
